@@ -140,8 +140,10 @@ void switch_to(int next, int self)
 }
 } // namespace
 
+void mutex_models_reset();
 void init(uint64_t seed, int nthreads, int b, uint64_t maxy)
 {
+  mutex_models_reset(); // (addresses of an earlier run's mutexes mean nothing in this one)
   N = nthreads > MAXT ? MAXT : nthreads;
   bias = b;
   max_yields = maxy;
@@ -168,6 +170,44 @@ void init(uint64_t seed, int nthreads, int b, uint64_t maxy)
   done_count = 0;
   res = Result();
   res.schedule_hash = 1469598103934665603ULL;
+}
+
+namespace {
+struct MutexModel
+{
+  const void* key;
+  LockModel model;
+};
+MutexModel mutex_models[512];
+LockModel* model_of(const void* m)
+{
+  unsigned long h = ((unsigned long)m >> 3) % 512;
+  for (unsigned k = 0; k < 512; k++) {
+    MutexModel& e = mutex_models[(h + k) % 512];
+    if (e.key == m)
+      return &e.model;
+    if (e.key == nullptr) {
+      e.key = m;
+      return &e.model;
+    }
+  }
+  return nullptr;
+}
+}
+void mutex_models_reset()
+{
+  for (auto& e : mutex_models)
+    e = MutexModel{ nullptr, LockModel() };
+}
+void mutex_acquire(const void* key)
+{
+  if (LockModel* l = model_of(key))
+    lock_acquire(l, false);
+}
+void mutex_release(const void* key)
+{
+  if (LockModel* l = model_of(key))
+    lock_release(l, false);
 }
 
 int current_tid()
